@@ -27,12 +27,39 @@ func fieldOf(fa *ssa.FieldAddr) (string, string) {
 	return structName(pt), st.Field(fa.Field).Name()
 }
 
-func isLocalNew(v ssa.Value) bool {
+func isLocalNew(v ssa.Value) bool { return isLocalNewD(v, 0) }
+
+// isLocalNewD: v is (a field of) an object allocated in the same function,
+// possibly read back from a local variable that only ever holds such objects
+// (naive-form SSA keeps `x := &T{}` in a cell).
+func isLocalNewD(v ssa.Value, d int) bool {
+	if d > 4 {
+		return false
+	}
 	switch x := v.(type) {
 	case *ssa.Alloc:
 		return true
 	case *ssa.FieldAddr:
-		return isLocalNew(x.X)
+		return isLocalNewD(x.X, d+1)
+	case *ssa.UnOp:
+		cell, ok := x.X.(*ssa.Alloc)
+		if !ok || cell.Referrers() == nil {
+			return false
+		}
+		stores := 0
+		for _, r := range *cell.Referrers() {
+			switch y := r.(type) {
+			case *ssa.Store:
+				if y.Addr != cell || !isLocalNewD(y.Val, d+1) {
+					return false
+				}
+				stores++
+			case *ssa.UnOp, *ssa.DebugRef:
+			default:
+				return false // the variable's address escapes
+			}
+		}
+		return stores > 0
 	}
 	return false
 }
